@@ -31,10 +31,10 @@ import (
 	"bytes"
 	"crypto/sha1"
 	"encoding/hex"
-	"go/printer"
 	"fmt"
 	"go/ast"
 	"go/parser"
+	"go/printer"
 	"go/token"
 	"go/types"
 	"os"
@@ -1694,7 +1694,7 @@ func unrollTables(dir string, overlay map[string][]byte, extraEnv []string) (map
 						b.WriteString(e.text)
 						cur = e.end
 					}
-					b.Write(src[cur:off(rs.Body.Rbrace)+1])
+					b.Write(src[cur : off(rs.Body.Rbrace)+1])
 				}
 				fmt.Fprintf(&b, "\n}\n//line %s:%d\n", fn, line(rs.End()))
 				edits = append(edits, nEdit{off(rs.Pos()), off(rs.End()), b.String()})
